@@ -93,21 +93,22 @@ Expected(st, op) ==
     [] OTHER -> <<[k |-> "unit"], st>>
 
 (***************************************************************************)
-(* The position counter of the implementation is one machine word that is   *)
-(* advanced by the REQUESTED size of every pull (it overshoots the length).  *)
-(* Ctr(st, op) is its ideal value after op; once it no longer fits a word    *)
-(* the real counter has wrapped around (known limitation, recorded in        *)
-(* known_findings.json): mismatches after that point are reported under a    *)
-(* different name so that they can be told apart from everything else.       *)
+(* The position counter of the known-size kinds is one machine word.  A      *)
+(* single pull advances it by 1, a chunk pull by min(requested, length)      *)
+(* (the cap is fix 4404dbf of /repo), also after the end has been reached.   *)
+(* Ctr(st, op) is its ideal value after op.  It can pass usize::MAX only for *)
+(* ranges with about 2^63 elements or more (finding G2 as narrowed by the    *)
+(* fix: the pinned tests of the crate require the counter to keep growing    *)
+(* after the end, so it cannot be held at the length); mismatches after that *)
+(* point are reported under a different name so that they can be told apart  *)
+(* from everything else.                                                     *)
 (***************************************************************************)
 Ctr(st, op) ==
-  LET c == st.ctr
-      rem == IF Lt(c, st.len) THEN Sub(st.len, c) ELSE Zero IN
+  LET c == st.ctr IN
   CASE op.k \in {"next", "nextid"} -> Add(c, N(0, 1))
-    [] op.k = "chunk" -> Add(c, op.n)
-    [] op.k = "bnext" -> Add(c, st.buf)
-    [] op.k \in {"foreach", "eforeach", "fold"} -> IF op.n = Zero THEN c ELSE Add(Add(c, rem), op.n)
-    [] op.k = "skip" -> IF Lt(c, st.len) THEN st.len ELSE c        \* skip_to_end moves the counter to the length (an index, never a value)
+    [] op.k = "chunk" -> Add(c, MinN(op.n, st.len))
+    [] op.k = "bnext" -> Add(c, MinN(st.buf, st.len))
+    [] op.k = "skip" -> st.len
     [] OTHER -> c
 Wrapped(st) == ~Fits(st.ctr)
 
